@@ -589,16 +589,17 @@ Proof. induction l as [|h l IH]; intros H; [reflexivity|]. inversion H; subst. s
 Lemma completions_length : forall items free, length (completions free items) = length items.
 Proof. induction items as [|[a c] r IH]; intros free; simpl; [reflexivity|]. now rewrite IH. Qed.
 
-(* close() returning normally means: every handler call of this extraction has completed by then, none comes later *)
-Theorem all_before_close : forall free items tc raised tret nb na, costs_nonneg items ->
-  close_model free items tc = (raised, tret, nb, na) -> raised = false ->
-  Forall (fun d => d <= tret) (completions free items) /\ nb = Z.of_nat (length items) /\ na = 0.
+(* close() returns only after every handler call of the session has completed, and none comes later: unconditional,
+   however much handler time is owed *)
+Theorem all_before_close : forall free items tc tret nb na, costs_nonneg items ->
+  close_model free items tc = (tret, nb, na) ->
+  tc <= tret /\ Forall (fun d => d <= tret) (completions free items) /\ nb = Z.of_nat (length items) /\ na = 0.
 Proof.
-  intros free items tc raised tret nb na Hc H Hr. unfold close_model, last_completion in H.
-  injection H as H1 H2 H3 H4. subst raised. rewrite Hr in H2, H3, H4.
+  intros free items tc tret nb na Hc H. unfold close_model, last_completion in H.
+  injection H as H2 H3 H4.
   assert (Hall : Forall (fun d => d <= tret) (completions free items)).
   { subst tret. eapply Forall_impl; [|exact (completions_le_last items free Hc)]. simpl. intros; lia. }
-  split; [assumption|]. split.
+  split; [lia|]. split; [assumption|]. split.
   - subst nb. rewrite filter_all_length, completions_length; [reflexivity|].
     eapply Forall_impl; [|exact Hall]. intros d Hd. cbv beta in Hd. apply Z.leb_le. lia.
   - subst na. rewrite filter_none_length; [reflexivity|].
@@ -613,28 +614,38 @@ Proof.
   specialize (IH (Z.max free a + c) T (s + c) Hr). simpl. lia.
 Qed.
 
-(* sufficient: the handler time still owed when close() is called fits in the join timeout *)
-Theorem close_returns_when_backlog_fits : forall free items tc,
-  Forall (fun it => fst it <= tc /\ 0 <= snd it) items -> free <= tc -> zsum (map snd items) <= 1024 ->
-  fst (fst (fst (close_model free items tc))) = false.
+(* close() waits no longer than the handler time still owed when it is called *)
+Theorem close_wait_bounded : forall free items tc,
+  Forall (fun it => fst it <= tc /\ 0 <= snd it) items -> free <= tc ->
+  fst (fst (close_model free items tc)) <= tc + zsum (map snd items).
 Proof.
-  intros free items tc H Hf Hs. unfold close_model, last_completion. simpl.
-  pose proof (last_completion_bound items free tc 0 H ltac:(lia) ltac:(lia)). lia.
+  intros free items tc H Hf. unfold close_model, last_completion. simpl.
+  pose proof (last_completion_bound items free tc 0 H ltac:(lia) ltac:(lia)).
+  assert (0 <= zsum (map snd items)).
+  { clear -H. induction H as [|[a c] l [_ Hc] _ IH]; simpl in *; lia. }
+  lia.
+Qed.
+
+(* ================================================================ several extractions in one session *)
+Lemma reporter_rest_fifo : forall evs rest, reporter_rest (map Some evs ++ None :: rest) = (evs, true, rest).
+Proof. induction evs as [|e evs IH]; intros rest; simpl; [reflexivity|]. now rewrite IH. Qed.
+
+(* the first callback receives exactly the first extraction's events, the second callback exactly the second's *)
+Theorem second_extraction_own_callback : forall ev1 ev2,
+  reporter_rest (map Some ev1 ++ None :: map Some ev2 ++ [None]) = (ev1, true, map Some ev2 ++ [None]) /\
+  reporter_rest (map Some ev2 ++ [None]) = (ev2, true, []) /\
+  accounts 3 (map Some ev1 ++ None :: map Some ev2 ++ [None]) = [ev1; ev2].
+Proof.
+  intros ev1 ev2. split; [apply reporter_rest_fifo|]. split; [apply reporter_rest_fifo|].
+  assert (Hne : forall evs (r : list (option event)), map Some evs ++ None :: r <> []) by (intros [|? ?] r; discriminate).
+  unfold accounts; fold accounts.
+  destruct (map Some ev1 ++ None :: map Some ev2 ++ [None]) eqn:E1; [exfalso; exact (Hne _ _ E1)|]. rewrite <- E1.
+  rewrite reporter_rest_fifo.
+  destruct (map Some ev2 ++ [None]) eqn:E2; [exfalso; exact (Hne _ _ E2)|]. rewrite <- E2.
+  rewrite reporter_rest_fifo. reflexivity.
 Qed.
 
 (* ================================================================ limits *)
-(* handlers of 52/1024 s (about 50 ms) each, 23 events (7 members) queued at close(): close() raises and 4 handler
-   calls happen after it has raised *)
-Fixpoint rep_items (n : nat) (it : Z * Z) : list (Z * Z) := match n with O => [] | S k => it :: rep_items k it end.
-
-Theorem close_brief_handlers_refuted : exists items tc,
-  Forall (fun it => fst it <= tc /\ 0 <= snd it <= 52) items /\
-  close_model 0 items tc = (true, 1024, 19, 4).
-Proof.
-  exists (rep_items 23 (0, 52)), 0. split; [|vm_compute; reflexivity].
-  repeat constructor; simpl; lia.
-Qed.
-
 Definition ex_m (i : Z) (nm : name) (sz : Z) (tg : bool) : member := mkMember i nm 0 sz false tg [(sz, 0)].
 Definition ex_shape : shape :=
   mkShape MultiPar
@@ -668,11 +679,3 @@ Proof.
   apply wellformed_sequential; [assumption|]. intros m H. apply Hok. apply in_or_app. now left.
 Qed.
 
-(* a second extraction on the same object starts a second reporter on the same queue: the account is split *)
-Theorem second_reporter_split_refuted : exists ms evs choice,
-  wellformed ms evs /\ ~ wellformed ms (fst (split2 choice evs)) /\ ~ wellformed ms (snd (split2 choice evs)).
-Proof.
-  exists [ex_m 1 [97] 10 true], [Pre; Start 1 [97] 0; Update 1 10; End 1 [97] 10; Post], [false; true; false; true; false].
-  split; [apply wellformedb_iff; vm_compute; reflexivity|].
-  split; intro H; apply wellformedb_iff in H; vm_compute in H; discriminate.
-Qed.
